@@ -1,100 +1,89 @@
-// One operation of a MultiProgress from ANY state of the invariant Inv_multi, on the abstract screen.
-// Shared by the C02 / C03 / C04 harness files (no @harness annotation here).
+// One operation of a MultiProgress from ANY state of the invariant Inv_multi, with DrawState::draw_to_term replaced by
+// its contract on a row stack (assume-guarantee; the contract itself is what the C01/C19 step harnesses establish).
+// Shared by the C02 / C03 / C04 / C18 harness files (no @harness annotation here).
 //
-// Inv_multi (pre-state, all symbolic):
-//   screen rows: [0,L) log rows; then Z0 = zombie_lines_count rows of visibly finished, already reaped bars; then the live
-//   frame of F = last_line_count rows, as last painted; cursor parked at the right edge of the last of these rows (or at
-//   column 0 of the first free row when nothing at all is below the log).
-//   members: 3 slots, all in `ordering` (order 0,1,2), each drawn (one 1-row bar line) or never drawn, each possibly a
-//   zombie (its BarState was dropped); zombies that are still in `ordering` were painted by their forced final draw, so
-//   their rows are part of the F rows; `orphan_lines` is empty between operations.
-//   limiter of the MultiProgress target: admits or refuses ordinary draws (symbolic).
-// Post-condition common to every operation ("ownership"): the F' + Z' rows ending at the cursor row contain no log row and
-// no printed text row, every log row is intact, every newly printed text row is on screen exactly once, above the F' + Z'
-// rows and below all earlier log rows. This is what makes the NEXT operation safe, i.e. the induction step.
+// Inv_multi (pre-state):
+//   screen rows (bottom = cursor row): [0,L) log rows; then Z0 = zombie_lines_count rows of visibly finished, already
+//   reaped bars; then the live frame of F = last_line_count rows, as last painted.
+//   members: 2 slots in `ordering` (order 0,1), each drawn with one 1-row bar line; which of them are zombies (their
+//   BarState was dropped but they are still in the order) is a CONCRETE pattern per harness; zombies that are still in
+//   `ordering` were painted by their forced final draw, so their rows are part of the F rows; `orphan_lines` is empty
+//   between operations. F, Z0 and the limiter's verdict are symbolic.
+// Post-condition of every operation ("ownership", the induction step): the F' + Z' rows at the bottom of the screen
+// contain no log row and no printed text row; no log row was ever erased (asserted inside the contract); every newly
+// printed text row is on screen exactly once, above those F' + Z' rows.
 #[cfg(kani)]
 pub(crate) mod verif_mstep {
     use super::verif_rig_multi::*;
     use super::*;
-    use crate::draw_target::verif_scr::*;
+    use crate::draw_target::verif_rig_dt::*;
     use crate::verif_common::*;
 
     pub(crate) const L: usize = 3; // log rows above everything
+    pub(crate) const T_LOG: u8 = b'L';
     pub(crate) const T_ZOMB: u8 = b'z';
+    pub(crate) const T_OLD: u8 = b'O';
 
     pub(crate) struct Pre {
-        pub scr: &'static Scr,
         pub ms: MultiState,
         pub z0: usize,
         pub f: usize,
-        pub drawn: [bool; 3],
-        pub zombie: [bool; 3],
+        pub zombie: [bool; 2],
         pub allow: bool,
         pub now: Instant,
     }
 
-    /// `zmask` / `dmask`: CONCRETE bit masks saying which of the 3 members are zombies / have been drawn (symbolic flags
-    /// would make the length of the composed frame symbolic, which CBMC cannot digest); F, Z0, limiter, parking symbolic.
-    pub(crate) fn pre_state(w: usize, zmask: u8, dmask: u8) -> Pre {
-        let scr = leak_scr(w, 10);
+    pub(crate) fn boxed_line(letter: u8) -> LineType {
+        LineType::Bar(String::from(match letter {
+            b'A' => "A",
+            b'B' => "B",
+            b'C' => "C",
+            _ => "D",
+        }))
+    }
+
+    pub(crate) fn pre_state(zmask: u8) -> Pre {
         let z0: usize = kani::any();
         let f: usize = kani::any();
-        kani::assume(z0 <= 2 && f <= 3);
+        kani::assume(z0 <= 2 && f <= 2);
         let allow: bool = kani::any();
         let now = mk_instant(1_000_000, 0);
-        // the limiter's verdict for ordinary draws is the symbolic `allow` (RateLimiter::allow is stubbed by rl_controlled)
         unsafe {
-            crate::draw_target::verif_rig_dt::RL_VERDICT = allow;
+            RL_VERDICT = allow;
+            SLEN = 0;
+            DRAWS = 0;
+            LOG_FLOOR = L;
         }
-        let target = scr_target_limited(scr, 20, 5, now, f);
-        let mut ms = rig_multi(target);
+        let mut ms = rig_multi(null_target(4, 10, f));
         ms.zombie_lines_count = VisualLines::from(z0);
-        let mut drawn = [false; 3];
-        let mut zombie = [false; 3];
+        let mut zombie = [false; 2];
         let mut zrows = 0;
         let mut i = 0;
-        while i < 3 {
-            drawn[i] = dmask & (1 << i) != 0;
+        while i < 2 {
             zombie[i] = zmask & (1 << i) != 0;
-            push_member(&mut ms, drawn[i], 1, b'A' + i as u8, zombie[i]);
-            if zombie[i] && drawn[i] {
+            let idx = ms.members.len();
+            let mut d = DrawState::default();
+            d.lines = Vec::with_capacity(3);
+            d.lines.push(boxed_line(b'A' + i as u8));
+            ms.members.push(MultiStateMember { draw_state: Some(d), is_zombie: zombie[i] });
+            ms.ordering.push(idx);
+            if zombie[i] {
                 zrows += 1;
             }
             i += 1;
         }
         // zombies still in `ordering` were painted by their final forced draw
         kani::assume(f >= zrows);
-        // a zombie at the head of `ordering` exists only while it waits for the next draw to reap it; mark_zombie reaps
-        // a head member immediately, so it became head because the members before it were removed -- allowed.
-        let mut r = 0;
-        while r < NROWS {
+        rep12!(r, {
             if r < L {
-                scr.tags[r].set(T_LOG);
+                stack_push(T_LOG);
             } else if r < L + z0 {
-                scr.tags[r].set(T_ZOMB);
+                stack_push(T_ZOMB);
             } else if r < L + z0 + f {
-                scr.tags[r].set(T_OLD);
+                stack_push(T_OLD);
             }
-            r += 1;
-        }
-        let below = z0 + f;
-        if below > 0 {
-            scr.row.set(L + below - 1);
-            scr.col.set(w);
-            scr.maxrow.set(L + below - 1);
-        } else {
-            let parked: bool = kani::any();
-            if parked {
-                scr.row.set(L - 1);
-                scr.col.set(w);
-                scr.maxrow.set(L - 1);
-            } else {
-                scr.row.set(L);
-                scr.col.set(0);
-                scr.maxrow.set(L);
-            }
-        }
-        Pre { scr, ms, z0, f, drawn, zombie, allow, now }
+        });
+        Pre { ms, z0, f, zombie, allow, now }
     }
 
     /// what BarState::draw does to its MultiProgress: replace the member's lines, then ask for an ordinary/forced draw
@@ -102,7 +91,7 @@ pub(crate) mod verif_mstep {
         {
             let mut w = ms.draw_state(idx);
             w.lines.clear();
-            w.lines.push(LineType::Bar(mk_line(letter, 1)));
+            w.lines.push(boxed_line(letter));
         }
         ms.draw(force, None, now)
     }
@@ -112,42 +101,36 @@ pub(crate) mod verif_mstep {
         {
             let mut w = ms.draw_state(idx);
             w.lines.clear();
-            w.lines.push(LineType::Text(mk_line(b'x', 1)));
-            w.lines.push(LineType::Bar(mk_line(letter, 1)));
+            w.lines.push(LineType::Text(String::from("x")));
+            w.lines.push(boxed_line(letter));
         }
         ms.draw(true, None, now)
     }
 
-    /// Ownership / induction post-condition (see file header). `new_text`: tag of a text row printed by the operation
-    /// (0 = none). Returns the index of the first row owned by the progress region.
+    /// Ownership / induction post-condition. `new_text`: tag of a text row printed by the operation (0 = none).
     pub(crate) fn post_inv(p: &Pre, new_text: u8) -> usize {
-        let scr = p.scr;
-        let fz = last_count(&p.ms) + zombie_lines(&p.ms);
-        let c = scr.row.get();
-        // all log rows intact
-        let mut r = 0;
-        while r < L {
-            assert!(scr.tag(r) == T_LOG);
-            r += 1;
-        }
-        assert!(fz <= c + 1);
-        let first = c + 1 - fz;
-        assert!(first >= L);
-        // owned rows: no log row, no text row
+        let fz = target_last_rows(&p.ms.draw_target) + p.ms.zombie_lines_count.as_usize();
+        let slen = unsafe { SLEN };
+        assert!(slen >= L);
+        assert!(fz <= slen - L); // the accounted rows do not reach into the log
+        let first = slen - fz;
         let mut nx = 0;
-        let mut r = 0;
-        while r < NROWS {
-            let t = scr.tag(r);
-            if r >= first && r <= c {
-                assert!(t != T_LOG && t != b'x' && t != b'y');
+        assert!(slen <= 12);
+        rep12!(r, {
+            if r < slen {
+                let t = unsafe { STACK[r] };
+                if r < L {
+                    assert!(t == T_LOG);
+                }
+                if r >= first {
+                    assert!(t != T_LOG && t != b'x' && t != b'y'); // owned rows: no log row, no printed text row
+                }
+                if new_text != 0 && t == new_text {
+                    nx += 1;
+                    assert!(r < first); // above the progress region
+                }
             }
-            if new_text != 0 && t == new_text {
-                nx += 1;
-                assert!(r < first); // above the progress region
-            }
-            // nothing of the old live frame survives a painting operation
-            r += 1;
-        }
+        });
         if new_text != 0 {
             assert!(nx == 1); // exactly once
         }
